@@ -68,7 +68,7 @@ FEndRollout ==
 
 FEvaluate ==
   /\ ph = "eval"
-  /\ \E sc \in [1..Len(pop) -> Scores] : GenerationC(envc, acc, sc)
+  /\ \E sc \in [1..Len(pop) -> Scores] : GenBody(envc, acc, sc)
   /\ ph' = "top" /\ UNCHANGED <<lp, cur, it, loc, envc, acc, mem, learned>>
 
 FSelect == ph = "top" /\ MCSelect /\ UNCHANGED fine
@@ -96,7 +96,7 @@ FStepsAreEnvSteps == ph = "top" => StepsAreEnvSteps
 \* parameters of the fine model: selection on, every (num_envs, learn_step) pair of the property's quantifier
 FParams == {[k |-> k, rule |-> r, max |-> m, evo |-> TRUE, elitism |-> TRUE, mutate_elite |-> FALSE, target |-> FALSE] :
               k \in 1..2, r \in {"any", "sum"}, m \in {8, 20}}
-FParamsq == {[k |-> 2, rule |-> r, max |-> 12, evo |-> TRUE, elitism |-> TRUE, mutate_elite |-> FALSE, target |-> FALSE] : r \in {"any", "sum"}}
+FParamsq == {[k |-> 2, rule |-> r, max |-> 16, evo |-> TRUE, elitism |-> TRUE, mutate_elite |-> FALSE, target |-> FALSE] : r \in {"any", "sum"}}
 MCLoops == {[kind |-> kd, ne |-> ne, ls |-> ls, evo |-> ev, batch |-> 4, cap |-> 16] :
               kd \in {"off", "on", "ma_off", "ma_on"}, ne \in {1, 2, 4}, ls \in {1, 2, 3, 8}, ev \in {4, 8}}
            \cup {[kind |-> kd, ne |-> 1, ls |-> ls, evo |-> ev, batch |-> 4, cap |-> 16] :
